@@ -4,6 +4,7 @@ import (
 	"bufio"
 	"bytes"
 	"io"
+	"unicode/utf8"
 )
 
 const (
@@ -31,6 +32,10 @@ func (s *scanner) read() rune {
 	ch, _, err := s.r.ReadRune()
 	if err != nil {
 		return eof
+	}
+	if ch == eof {
+		// A NUL character in the input is not the end of the input: hand it on as an illegal character
+		ch = utf8.RuneError
 	}
 	if ch == '\n' {
 		s.pos.Lines = append(s.pos.Lines, s.pos.Char)
